@@ -1,6 +1,7 @@
 package main
 
 import (
+	bpmn "github.com/olive-io/bpmn/v2"
 	"fmt"
 	"math/rand"
 	"strings"
@@ -27,6 +28,7 @@ type c11Shape struct {
 	// armedBy[task] = listener armed once that task is answered ("" key: armed at start)
 	armedBy map[string][]int
 	tasks   []string // all answerable tasks
+	loopN   int      // loop shape: B0's answers send the token round again loopN-1 times
 }
 
 func c11Catch(p *Prog, id string, ev int, msg bool) {
@@ -55,7 +57,7 @@ func c11Shapes() []c11Shape {
 		}
 		out = append(out, c11Shape{"sequence", p, extra, nil,
 			[]c11Listener{{"C0", 0, "B0", false}, {"C1", 1, "B1", true}},
-			map[string][]int{"A": {0}, "B0": {1}}, []string{"A", "B0", "B1"}})
+			map[string][]int{"A": {0}, "B0": {1}}, []string{"A", "B0", "B1"}, 0})
 	}
 	{ // parallel: start -> F -> {C0(e0)->B0, C1(e1)->B1, C2(e0)->B2} -> J -> end
 		p := &Prog{}
@@ -78,7 +80,7 @@ func c11Shapes() []c11Shape {
 		p.Flow("J", "end", "")
 		out = append(out, c11Shape{"parallel", p, extra, nil,
 			[]c11Listener{{"C0", 0, "B0", false}, {"C1", 1, "B1", false}, {"C2", 0, "B2", false}},
-			map[string][]int{"": {0, 1, 2}}, []string{"B0", "B1", "B2"}})
+			map[string][]int{"": {0, 1, 2}}, []string{"B0", "B1", "B2"}, 0})
 	}
 	{ // untaken branch: start -> X -[c0]-> C0(e0) -> B0 -> end | default -> A -> C1(e1) -> B1 -> end
 		p := &Prog{}
@@ -100,7 +102,26 @@ func c11Shapes() []c11Shape {
 		p.Flow("B1", "end", "")
 		out = append(out, c11Shape{"untaken-branch", p, extra, map[string]any{"c0": false},
 			[]c11Listener{{"C0", 0, "B0", false}, {"C1", 1, "B1", false}},
-			map[string][]int{"A": {1}}, []string{"A", "B0", "B1"}})
+			map[string][]int{"A": {1}}, []string{"A", "B0", "B1"}, 0})
+	}
+	{ // loop: start -> M -> C0(e0) -> B0 -> X -[again]-> M | default -> end : one catch event reached again and again by the same token
+		p := &Prog{}
+		p.Node("start", "start")
+		p.Node("xor", "M")
+		c11Catch(p, "C0", 0, false)
+		b := p.Node("task", "B0")
+		b.Results = []string{"again"}
+		x := p.Node("xor", "X")
+		p.Node("end", "end")
+		p.Flow("start", "M", "")
+		p.Flow("M", "C0", "")
+		p.Flow("C0", "B0", "")
+		p.Flow("B0", "X", "")
+		p.Flow("X", "M", "again")
+		x.Default = p.Flow("X", "end", "").ID
+		out = append(out, c11Shape{"loop", p, extra, map[string]any{"again": true},
+			[]c11Listener{{"C0", 0, "B0", false}},
+			map[string][]int{"": {0}, "B0": {0}}, []string{"B0", "B0"}, 5})
 	}
 	{ // re-armed: start -> F -> {C0(e0) ; A -> C0} ; C0 -> B0 -> end : two tokens reach the same catch event, together or one after the other
 		p := &Prog{}
@@ -118,7 +139,7 @@ func c11Shapes() []c11Shape {
 		p.Flow("B0", "end", "")
 		out = append(out, c11Shape{"re-armed", p, extra, nil,
 			[]c11Listener{{"C0", 0, "B0", false}},
-			map[string][]int{"": {0}, "A": {0}}, []string{"A", "B0", "B0"}})
+			map[string][]int{"": {0}, "A": {0}}, []string{"A", "B0", "B0"}, 0})
 	}
 	return out
 }
@@ -172,6 +193,7 @@ func c11Run(sh c11Shape, ops []string) c11Obs {
 	} else {
 		in.WaitUntil(tmoStep, func(l []Ev) bool { return countEv(l, "task", "*") > 0 })
 	}
+	answered := map[string]int{}
 	listening := func(li int) bool { // model-free: armed more often than released
 		return armedSeen[li] > countEv(in.Log(), "task", sh.listeners[li].after)
 	}
@@ -182,10 +204,17 @@ func c11Run(sh c11Shape, ops []string) c11Obs {
 		switch {
 		case strings.HasPrefix(op, "t:"):
 			task := op[2:]
-			if !in.Answer(task, time.Millisecond) {
+			var opts []bpmn.DoOption
+			again := true
+			if sh.loopN > 0 {
+				again = answered[task]+1 < sh.loopN
+				opts = append(opts, bpmn.DoWithResults(map[string]any{"again": again}))
+			}
+			if !in.Answer(task, time.Millisecond, opts...) {
 				continue // not pending: the driver skips it
 			}
-			if ls, ok := sh.armedBy[task]; ok {
+			answered[task]++
+			if ls, ok := sh.armedBy[task]; ok && again {
 				waitArm(ls)
 			}
 		case strings.HasPrefix(op, "e:"):
@@ -255,6 +284,13 @@ func runC11(env *Env) {
 			burst = append(burst, fmt.Sprintf("e:%d", i%3))
 		}
 		hists = append(hists, burst)
+		if sh.loopN > 0 { // the catch event reached again and again, a matching event every time
+			var again []string
+			for i := 0; i < sh.loopN; i++ {
+				again = append(again, "e:0", "t:B0")
+			}
+			hists = append(hists, again, append([]string{"e:1", "e:0", "e:0"}, again...))
+		}
 		for h := 0; h < nHist; h++ {
 			n := 3 + rng.Intn(8)
 			var ops []string
